@@ -249,18 +249,18 @@ func FindAllBuildFiles(config *core.Configuration, rootPath, prefix string) <-ch
 		}
 		if err := fs.Walk(rootPath, func(name string, isDir bool) error {
 			basename := filepath.Base(name)
-			if basename == core.OutDir || (isDir && strings.HasPrefix(basename, ".") && name != ".") {
+			if isDir && (basename == core.OutDir || (strings.HasPrefix(basename, ".") && name != ".")) {
 				return filepath.SkipDir // Don't walk output or hidden directories
 			} else if isDir && !strings.HasPrefix(name, prefix) && !strings.HasPrefix(prefix, name) {
 				return filepath.SkipDir // Skip any directory without the prefix we're after (but not any directory beneath that)
 			} else if config.IsABuildFile(basename) && !isDir {
 				ch <- name
-			} else if cli.ContainsString(name, config.Parse.ExperimentalDir) {
+			} else if isDir && cli.ContainsString(name, config.Parse.ExperimentalDir) {
 				return filepath.SkipDir // Skip the experimental directory if it's set
 			}
 			// Check against blacklist
 			for _, dir := range config.Parse.BlacklistDirs {
-				if dir == basename || name == dir || strings.HasPrefix(name, dir+"/") {
+				if isDir && (dir == basename || name == dir || strings.HasPrefix(name, dir+"/")) {
 					return filepath.SkipDir
 				}
 			}
